@@ -126,6 +126,52 @@ let read_op t =
   | "erp" ->
       let i = next_z t in
       (OErasePos i, SErasePos i)
+  (* default arguments as written in the header (all npos / 0, as in the standard) *)
+  | "erd" -> (OErase (Z0, npos_z), SErase (Z0, npos_z))
+  | "er1" ->
+      let i = next_z t in
+      (OErase (i, npos_z), SErase (i, npos_z))
+  | "subd" -> (OSubstr (Z0, npos_z), SSubstr (Z0, npos_z))
+  | "sub1" ->
+      let p = next_z t in
+      (OSubstr (p, npos_z), SSubstr (p, npos_z))
+  | "ass2" ->
+      let l = next_zlist t in
+      let p = next_z t in
+      (OAppendStrSub (l, p, npos_z), SAppendStrSub (l, p, npos_z))
+  | "avs2" ->
+      let l = next_zlist t in
+      let p = next_z t in
+      (OAppendViewSub (l, p, npos_z), SAppendViewSub (l, p, npos_z))
+  | "zss2" ->
+      let l = next_zlist t in
+      let p = next_z t in
+      (OAssignStrSub (l, p, npos_z), SAssignStrSub (l, p, npos_z))
+  | "zvs2" ->
+      let l = next_zlist t in
+      let p = next_z t in
+      (OAssignViewSub (l, p, npos_z), SAssignViewSub (l, p, npos_z))
+  | "iss3" | "ivs3" ->
+      let i = next_z t in
+      let l = next_zlist t in
+      let p = next_z t in
+      (OInsertStrSub (i, l, p, npos_z), SInsertStrSub (i, l, p, npos_z))
+  | "plsx" | "pesx" | "pev" ->
+      (* a string of another capacity / a view on the right: append(view) = append(data, size), clamps *)
+      let l = next_zlist t in
+      (OAppendPtr (l, zlen l), SAppendPtr (l, zlen l))
+  | "zch" ->
+      (* operator=(Char ch): assign(&ch, 1) *)
+      let c = next_z t in
+      (OAssignPtr ([ c ], z_of_int 1), SAssignPtr ([ c ], z_of_int 1))
+  | "zst" ->
+      (* assign(str): the defaulted copy assignment from another object (built by the (ptr, len) constructor) *)
+      let l = next_zlist t in
+      (OAssignStrSub (l, Z0, npos_z), SAssignStrSub (l, Z0, npos_z))
+  | "kf" ->
+      let n = next_z t in
+      let c = next_z t in
+      (OAssignFill (n, c), SAssignFill (n, c))
   | "fer" ->
       let c = next_z t in
       (OFreeErase c, SFreeErase c)
@@ -137,7 +183,7 @@ let read_op t =
 (* operations whose argument is another basic_inplace_string object of the same type: it must exist,
    i.e. hold at most Capacity characters ([arg_ok] of the theorem); otherwise the spec leg is "na"
    and the model constructs it exactly like the harness does (precondition failure of the constructor) *)
-let str_arg name = List.mem name [ "ast"; "pes"; "pls"; "ass"; "zss"; "ist"; "iss"; "kss"; "ks"; "plzs"; "plcs" ]
+let str_arg name = List.mem name [ "ast"; "pes"; "pls"; "ass"; "zss"; "ist"; "iss"; "kss"; "ks"; "plzs"; "plcs"; "ass2"; "zss2"; "iss3"; "zst" ]
 
 (* one harness operation = one or two model operations (constructors and operator+ with a left C string /
    character build a new string and then append); the state is printed after the last one *)
@@ -160,7 +206,7 @@ let read_op_named0 t name =
       let p = next_z t in
       let n = next_z t in
       (name, [ (OAssignViewSub (l, p, n), SAssignViewSub (l, p, n)) ])
-  | "kv" | "kr" | "zv" | "zr" ->
+  | "kv" | "kr" | "zv" | "zr" | "zveq" ->
       (* basic_inplace_string(view) / (first, last) / assign(view) / assign(first, last) with pointers:
          value-initialised storage + append(first, last) *)
       ignore (next_str t);
@@ -300,6 +346,9 @@ let run_case op t =
       in
       (* the basic_inplace_string argument of a harness operation is constructed first *)
       let arg_exists name subs s0 =
+        if name = "plsx" || name = "pesx" then
+          List.for_all (fun (fm, _) -> match fm s0 with OAppendPtr (l, _) -> List.length l <= 5 | _ -> true) subs
+        else
         (not (str_arg name))
         || List.for_all (fun (fm, _) -> match str_of (fm s0) with Some l -> fits cap l | None -> true) subs
       in
@@ -454,7 +503,7 @@ let run_case op t =
           in
           (res_s state_s m, spec)
       | _ -> ("contract", "na"))
-  | "replace" | "replace5" | "replacep" | "replacez" -> (
+  | "replace" | "replace5" | "replacep" | "replacez" | "replace4" -> (
       let l = next_zlist t in
       let pos = next_z t in
       let cnt = next_z t in
@@ -467,8 +516,10 @@ let run_case op t =
             let b = next_z t in
             (a, b)
         | "replacep" -> (Z0, next_z t)
+        | "replace4" -> (next_z t, npos_z)   (* the default count2 as written in the header *)
         | _ -> (Z0, Z0)
       in
+      let op = if op = "replace4" then "replace5" else op in
       (* what std::string::replace inserts *)
       let ins =
         match op with
@@ -499,7 +550,7 @@ let run_case op t =
             (res_s state_s m, spec)
         | _ -> ("contract", "na"))
   | _ when (let k = (try String.sub op 0 (String.index op '_') with Not_found -> op) in
-            List.mem k [ "sp"; "sz"; "sc"; "c3"; "cz"; "c3z"; "c4p"; "cv"; "c3v"; "c5v"; "pfx"; "rel"; "idx"; "fb"; "ef" ]) -> (
+            List.mem k [ "sp"; "sz"; "sc"; "c3"; "cz"; "c3z"; "c4p"; "cv"; "c3v"; "c5v"; "pfx"; "rel"; "idx"; "fb"; "ef"; "qdz"; "qdc"; "c4s"; "c4v"; "copy2"; "riter" ]) -> (
       let us = try String.index op '_' with Not_found -> String.length op in
       let kind = String.sub op 0 us in
       let name = if us < String.length op then String.sub op (us + 1) (String.length op - us - 1) else "" in
@@ -530,6 +581,30 @@ let run_case op t =
               let a = cstr_arr () in
               let pos = next_z t in
               search (NCstr a) pos
+          | "qdz" | "qdc" ->
+              (* called without a position: the header's default on the model side, the standard's on the spec side *)
+              let n = if kind = "qdz" then NCstr (cstr_arr ()) else NChar (next_z t) in
+              let f = famv name in
+              (res_s zs (search_m0 f s n (default_pos f)), "ok " ^ zs (search_s f l (needle_chars n) (std_default_pos f)))
+          | "c4s" | "c4v" ->
+              let p1 = next_z t in
+              let n1 = next_z t in
+              let b = next_zlist t in
+              let p2 = next_z t in
+              if kind = "c4s" then (if fits cap b then cmp (CmpPos5Str (p1, n1, view_of_list b, p2, npos_z)) else ("contract", "na"))
+              else cmp (CmpPos5View (p1, n1, view_of_list b, p2, npos_z))
+          | "copy2" ->
+              let cnt = next_z t in
+              let r, cl = copy_m s cnt Z0 in
+              let spec =
+                match s_substr l Z0 cnt with
+                | Some x -> join [ "ok"; string_of_int (List.length x); zlist_s x ]
+                | None -> "na"
+              in
+              (join [ "ok"; zs r; zlist_s cl ], spec)
+          | "riter" ->
+              let pr x = join [ "ok"; zlist_s (List.rev x @ List.rev x) ] in
+              (pr (contents s), pr l)
           | "sc" ->
               let c = next_z t in
               let pos = next_z t in
